@@ -23,7 +23,13 @@ func (g *Rng) streamBytes() []byte {
 	n := g.Intn(6)
 	var b []byte
 	for i := 0; i < n; i++ {
-		switch g.Intn(5) {
+		switch g.Intn(6) {
+		case 5: // frames that exactly fill what is left of the buffer after the previous ones
+			k := (4096 - (len(b)+1)%4096) % 4096
+			for j := 0; j < k; j++ {
+				b = append(b, byte(1+g.Intn(255)))
+			}
+			b = append(b, 0)
 		case 0:
 			b = append(b, 0) // empty frame
 		case 1:
@@ -37,8 +43,11 @@ func (g *Rng) streamBytes() []byte {
 			for j := 0; j < k; j++ {
 				b = append(b, byte(1+g.Intn(255)))
 			}
-		case 3: // large frame
+		case 3: // large frame; half of them with a wire length at or next to a multiple of the reader's 4096-byte buffer
 			k := 4000 + g.Intn(6000)
+			if g.Bool() {
+				k = g.Pick3(4096, 8192, 12288) - 1 + g.Pick3(-1, 0, 1)
+			}
 			for j := 0; j < k; j++ {
 				b = append(b, byte(1+g.Intn(255)))
 			}
